@@ -35,7 +35,7 @@ def _accessors(ix, m, cvars):
             if f.cls is not None or f.parent is not None or f.name in out:
                 continue
             rets = [n for n in walk_shallow(f.node) if isinstance(n, ast.Return) and n.value is not None]
-            if any(isinstance(x, ast.Call) and (call_name(x) or "") in out for r in rets for x in ast.walk(r.value)):
+            if rets and any(isinstance(x, ast.Call) and (call_name(x) or "") in out for x in walk_shallow(f.node)):
                 out.add(f.name)
                 changed = True
     return out
